@@ -3,6 +3,7 @@
   Model: `Model/Text.lean`.  All statements are for every string (`List Char`), every prior body.
 -/
 import PptxModel.Model.Text
+import PptxModel.Lemmas.Str
 namespace Pptx.C04
 open Pptx Pptx.Text
 
@@ -121,6 +122,85 @@ theorem splitOnC_length (c : Char) (s : Str) : (splitOnC c s).length = s.count c
 theorem frame_paragraph_count (b : Body) (s : Str) :
     (setFrame b s).length = s.count '\n' + 1 := by
   simp [setFrame, splitOnC_length]
+
+/-! ### line breaks -/
+
+theorem splitOnP_length (p : Char → Bool) (s : Str) : (splitOnP p s).length = (s.filter p).length + 1 := by
+  induction s with
+  | nil => simp [splitOnP]
+  | cons x xs ih =>
+    by_cases hx : p x = true
+    · simp [splitOnP, hx, ih, List.filter_cons]
+    · have hx' : p x = false := by simpa using hx
+      cases hsp : splitOnP p xs with
+      | nil => simp [hsp] at ih
+      | cons h t =>
+        rw [hsp] at ih
+        simp only [splitOnP, hx', Bool.false_eq_true, if_false, hsp, List.length_cons, List.filter_cons] at ih ⊢
+        exact ih
+
+theorem br_runOf (q : Str) : ((runOf q).filter (· == Item.br)).length = 0 := by
+  unfold runOf; split <;> simp
+
+theorem br_flatMap (rest : List Str) :
+    ((rest.flatMap fun q => Item.br :: runOf q).filter (· == Item.br)).length = rest.length := by
+  induction rest with
+  | nil => simp
+  | cons q qs ih =>
+    simp only [List.flatMap_cons, List.filter_append, List.length_append, ih, List.filter_cons]
+    have := br_runOf q
+    simp only [beq_self_eq_true, if_true, List.length_cons]
+    omega
+
+theorem br_piecesItems (ps : List Str) : ((piecesItems ps).filter (· == Item.br)).length = ps.length - 1 := by
+  cases ps with
+  | nil => simp [piecesItems]
+  | cons p rest =>
+    simp only [piecesItems, List.filter_append, List.length_append, br_flatMap, br_runOf, List.length_cons]
+    omega
+
+/-- a paragraph-level assignment produces one `a:br` per line feed or vertical tab of the string -/
+theorem para_break_count (p : Para) (s : Str) :
+    ((p.setText s).items.filter (· == Item.br)).length = (s.filter isBreak).length := by
+  simp only [Para.setText, appendText, List.nil_append, br_piecesItems, splitOnP_length]
+  omega
+
+theorem sum_breaks_segments (s : Str) :
+    ((splitOnC '\n' s).map fun seg => (seg.filter isBreak).length).sum = s.count '\x0b' := by
+  induction s with
+  | nil => simp [splitOnC]
+  | cons x xs ih =>
+    by_cases hx : x = '\n'
+    · subst hx
+      simp only [splitOnC, if_true, List.map_cons, List.sum_cons, ih]
+      simp
+    · cases hsp : splitOnC '\n' xs with
+      | nil => exact absurd hsp (splitOnC_ne_nil '\n' xs)
+      | cons h t =>
+        rw [hsp] at ih
+        simp only [splitOnC, hx, if_false, hsp, List.map_cons, List.sum_cons, List.filter_cons] at ih ⊢
+        by_cases hv : x = '\x0b'
+        · subst hv
+          have : isBreak '\x0b' = true := by decide
+          simp only [this, if_true, List.length_cons, List.count_cons, beq_self_eq_true]
+          omega
+        · have hb : isBreak x = false := by
+            simp only [isBreak, Bool.or_eq_false_iff, beq_eq_false_iff_ne]
+            exact ⟨hx, hv⟩
+          have hc : (x == '\x0b') = false := by simpa using hv
+          simp only [hb, Bool.false_eq_true, if_false, List.count_cons, hc]
+          simpa using ih
+
+/-- **One `a:br` per vertical tab** after a frame-level assignment (line feeds separate paragraphs instead), whatever
+    the body held before -/
+theorem frame_break_count (b : Body) (s : Str) : countBr (setFrame b s) = s.count '\x0b' := by
+  simp only [countBr, setFrame, List.map_map]
+  rw [← sum_breaks_segments s]
+  congr 1
+  apply List.map_congr_left
+  intro seg _
+  simp only [Function.comp, appendText, List.nil_append, br_piecesItems, splitOnP_length]
+  omega
 
 /-- **Run level**: LF and TAB stay characters, VT and every other C0 control are escaped;
     a string without such controls is stored and read back verbatim. -/
